@@ -293,12 +293,138 @@ def job_hier(d, k, h, groups=None, timeout_q=20.0, max_paths=6000, m_zero=False)
     return res
 
 
+def ref_hier_prox(v, u, alpha, M):
+    """Hier-Prox as LassoNet states it (Lemhadri et al. 2021, Alg. 3), written independently of the library on lists of terms:
+    sort |u| decreasingly, w_m = M/(1+m M^2) * max(||v|| - alpha + M sum_{j<=m} |u|_(j), 0), take the first m with
+    |u|_(m+1) <= w_m <= |u|_(m), beta* = w_m/(M ||v||) v (written without the division by M), theta* = sign(u) min(|u|, w_m)."""
+    import functools
+    h = len(u)
+    au = [core.sym_abs(x) for x in u]
+    order = sorted(range(h), key=functools.cmp_to_key(lambda a, b: -1 if bool(au[a] > au[b]) else (1 if bool(au[a] < au[b]) else 0)))
+    srt = [au[i] for i in order]
+    nv = _norm(v)
+    cum = K(0)
+    for m in range(h + 1):
+        if m > 0:
+            cum = cum + srt[m - 1]
+        t = nv - alpha + M * cum
+        t = t if bool(t > 0) else K(0)
+        den = 1 + m * M * M
+        w = M * t / den
+        if (m == 0 or bool(w <= srt[m - 1])) and (m == h or bool(srt[m] <= w)):
+            x = t / (den * nv)
+            beta = [x * vi for vi in v]
+            theta = [(K(1) if bool(uj >= 0) else K(-1)) * (aj if bool(aj <= w) else w) for uj, aj in zip(u, au)]
+            return beta, theta
+    return None
+
+
+def job_hier_ref(d, k, h, groups=None, timeout_q=20.0, max_paths=20000, strict=False, signs=None, M_value=None):
+    """differential harness: the REAL operator and ref_hier_prox are executed on the same symbolic inputs; on every joint
+    path the outputs must be the same terms (normal form) or provably equal.  Cheap (no optimality proof per path), so it
+    reaches 3 hidden units / grouped blocks with several skip outputs in the quick tier; the reference is itself tied to the
+    property by the certificate jobs (same operator, smaller shapes) and by the implementation-independent replay oracle."""
+    loader.install()
+    res = {"paths": 0, "queries": 0, "obligations": [], "violations": [], "validated": 0, "witnesses": 0, "samples": []}
+    st = {}
+    rows = [[i] for i in range(d)] if groups is None else groups
+
+    def setup():
+        pg = loader.load("sparse._prox_grad")
+        V = harness.free_matrix(d, k, "v")
+        U = harness.free_matrix(d, h, "u")
+        alpha = core.var("alpha", "0+")
+        # M_value: a concrete hierarchy constant makes every decision linear in (u, |v|, alpha): decisive feasibility answers
+        M = core.var("M", "0+") if M_value is None else K(Fraction(M_value))
+        for g in rows:
+            harness.assume(_norm([V[i, j] for i in g for j in range(k)]) > 0)
+        core.CTX.strict = strict       # strict: ties between breakpoints / at the clip level are left to the non-strict smaller shapes
+        if signs is not None:          # one job per sign pattern of the hidden weights (parallelism); zero entries: smaller shapes
+            flat = [U[i, j] for i in range(d) for j in range(h)]
+            for x, sg in zip(flat, signs):
+                harness.assume(x > 0 if sg > 0 else x < 0)
+                harness.mark_sign(x, "+") if sg > 0 else None
+        st.update(pg=pg)
+        return V, U, alpha, M
+
+    def body(arg):
+        V, U, alpha, M = arg
+        pg = st["pg"]
+        if groups is None:
+            B, T = pg.mlp_prox_grad(V.copy(), U.copy(), alpha, M)
+        else:
+            B, T = pg.group_mlp_prox_grad(groups, V.copy(), U.copy(), alpha, M)
+        refs = []
+        for g in rows:
+            refs.append(ref_hier_prox([to_rat(V[i, j]) for i in g for j in range(k)], [to_rat(U[i, j]) for i in g for j in range(h)], alpha, M))
+        return B, T, refs
+
+    ex = Explorer(max_paths=max_paths)
+    gname = "rows" if groups is None else "groups" + str(groups).replace(" ", "")
+    cfg = {"kind": "hier", "d": d, "k": k, "h": h, "groups": groups, "m_zero": False, "M_value": (str(M_value) if M_value is not None else None)}
+    for ret, pc, trace in ex.run(body, setup):
+        res["paths"] += 1
+        tag = f"hier-ref/d{d}k{k}h{h}/{gname}{'/signs' + ''.join('+' if x > 0 else '-' for x in signs) if signs else ''}{'/M=' + str(M_value) if M_value is not None else ''}/path{res['paths']}"
+        if isinstance(ret, PathError):
+            _path_error(res, ret, pc, tag, cfg, "hier:not-minimiser")
+            continue
+        B, T, refs = ret
+        B = np.asarray(B, dtype=object)
+        T = np.asarray(T, dtype=object)
+        if B.shape != (d, k) or T.shape != (d, h):
+            res["obligations"].append({"name": tag + "/shape", "verdict": "sat", "how": "syntactic"})
+            res["violations"].append({"signature": f"{PROP}:hier:shape", "what": "hierarchical prox returns the wrong shape", "replay": dict(cfg, model={})})
+            continue
+        diffs = []
+        missing = False
+        for g, r in zip(rows, refs):
+            if r is None:
+                missing = True
+                continue
+            bs = [B[i, j] for i in g for j in range(k)]
+            ts = [T[i, j] for i in g for j in range(h)]
+            for nm, a, b in [(f"beta[{g}][{j}]", bs[j], r[0][j]) for j in range(len(bs))] + [(f"theta[{g}][{j}]", ts[j], r[1][j]) for j in range(len(ts))]:
+                diffs.append((nm, a, b))
+        trivially = all((not isinstance(a, core.UndefinedValue)) and (to_rat(a) - to_rat(b)).c == 0 for _, a, b in diffs) and not missing
+        if trivially:
+            # identical normal forms on this path: discharged without a query (a path kept by an `unknown` feasibility answer costs nothing)
+            res["obligations"].append({"name": tag + f"/{len(diffs)} outputs == reference", "verdict": "unsat", "how": "normal-form"})
+            continue
+        vv, wmodel = harness.reachable(pc, timeout_s=8.0)
+        res["queries"] += 1
+        if vv == "unsat":
+            continue
+        if vv == "sat":
+            res["witnesses"] += 1
+        if missing:
+            res["obligations"].append({"name": tag + "/reference found its breakpoint", "verdict": "unknown" if vv != "sat" else "inconclusive", "how": "no m satisfies the bracket on this path"})
+            continue
+        for nm, a, b in diffs:
+            if isinstance(a, core.UndefinedValue):
+                res["obligations"].append({"name": f"{tag}/{nm} defined", "verdict": "sat", "how": "undefined-on-path"})
+                o = {"verdict": "sat", "model": wmodel, "name": f"{tag}/{nm} defined"}
+                if wmodel:
+                    _report(res, cfg, o, "hier:undefined", "hierarchical prox output undefined on an in-scope input")
+                continue
+            o = harness.prove_zero(to_rat(a) - to_rat(b), pc, timeout_s=timeout_q, name=f"{tag}/{nm} == reference")
+            if o.get("how", "").startswith("solver"):
+                res["queries"] += 1
+            res["obligations"].append(_strip(o))
+            if o["verdict"] == "sat":
+                _report(res, cfg, o, "hier:not-minimiser", f"LassoNet prox output differs from Hier-Prox ({nm})")
+        if len(res["samples"]) < 2:
+            res["samples"].append({"obligation": tag, "pc_size": len(pc)})
+    if ex.truncated or ex.depth_hits:
+        res["obligations"].append({"name": f"hier-ref/d{d}k{k}h{h}/{gname}/exploration", "verdict": "unknown", "how": "path budget exhausted"})
+    return res
+
+
 def _inputs_hier(cfg, model):
     d, k, h = cfg["d"], cfg["k"], cfg["h"]
     V = np.array([[float(Fraction(model.get(f"v_{i}_{j}", 1))) for j in range(k)] for i in range(d)])
     U = np.array([[float(Fraction(model.get(f"u_{i}_{j}", 0))) for j in range(h)] for i in range(d)])
     a = float(Fraction(model.get("alpha", 0)))
-    M = 0.0 if cfg.get("m_zero") else float(Fraction(model.get("M", 0)))
+    M = 0.0 if cfg.get("m_zero") else float(Fraction(cfg["M_value"])) if cfg.get("M_value") else float(Fraction(model.get("M", 0)))
     return V, U, a, M
 
 
@@ -429,14 +555,28 @@ def _path_error(res, err, pc, tag, cfg, sig):
         return
     res["obligations"].append({"name": tag + "/path-error", "verdict": "inconclusive", "how": repr(err)[:200]})
     if v == "sat":
-        rep = dict(cfg, model={k: str(x) for k, x in wmodel.items() if k[0] in "wvuaM" and "!" not in k})
-        try:
-            bad = replay(rep)
-        except Exception as e:
-            bad = True
-            rep["exception"] = f"{type(e).__name__}: {e}"
-        if bad:
-            res["violations"].append({"signature": f"{PROP}:{sig}", "what": "prox output is not the minimiser (concrete fallback after an engine path error)", "replay": rep})
+        base = {k: str(x) for k, x in wmodel.items() if k[0] in "wvuaM" and "!" not in k}
+        # the witness, then generic points of the same path (the witness of a path is often degenerate: zero / rank-one blocks)
+        import random
+        rng = random.Random(3)
+        cands = [base]
+        for _ in range(400):
+            if len(cands) >= 12:
+                break
+            m = {k: (str(Fraction(rng.uniform(-2, 2)).limit_denominator(100)) if k[0] in "wvu" else str(Fraction(rng.uniform(0.05, 1.5)).limit_denominator(100)))
+                 for k in base}
+            if harness.pc_holds(pc, {k: Fraction(x) for k, x in m.items()}) is True:
+                cands.append(m)
+        for m in cands:
+            rep = dict(cfg, model=m)
+            try:
+                bad = replay(rep)
+            except Exception as e:
+                bad = True
+                rep["exception"] = f"{type(e).__name__}: {e}"
+            if bad:
+                res["violations"].append({"signature": f"{PROP}:{sig}", "what": "prox output is not the minimiser (concrete fallback after an engine path error)", "replay": rep})
+                break
 
 
 def _report(res, cfg, o, sig, what):
@@ -540,11 +680,27 @@ def jobs(tier):
             for h in ([1] if q else [1, 2]):
                 out.append({"name": f"lasso/groups/d{d}h{h}/{part}", "target": "checks.c05:job_lasso",
                             "kwargs": dict(d=d, h=h, groups=part), "timeout": 300 if q else 1800})
+    # group lists as check_groups produces them from partial lists (declared groups first, singletons appended) and with
+    # indices in arbitrary order inside a group: the concatenated order is then not an involution
+    for part in [[[1, 2], [0]], [[2, 0], [1]]] + ([] if q else [[[2, 3], [0], [1]], [[3, 1], [2, 0]]]):
+        dd = sum(len(g) for g in part)
+        out.append({"name": f"lasso/groups-unordered/d{dd}h1/{part}", "target": "checks.c05:job_lasso", "kwargs": dict(d=dd, h=1, groups=part), "timeout": 300 if q else 1800})
     hier = [(1, 1, 1), (1, 1, 2), (1, 2, 1), (2, 1, 1)] if q else [(1, 1, 1), (1, 1, 2), (1, 2, 1), (2, 1, 1), (1, 1, 3), (1, 2, 2), (2, 1, 2)]
     for d, k, h in hier:
         out.append({"name": f"hier/d{d}k{k}h{h}", "target": "checks.c05:job_hier", "kwargs": dict(d=d, k=k, h=h), "timeout": 400 if q else 3000})
     if not q:
         out.append({"name": "hier-direct/k1h1", "target": "checks.c05:job_hier_direct", "kwargs": dict(k=1, h=1, timeout_q=300.0), "timeout": 3000})
+    # differential harness against the reference Hier-Prox: one job per sign pattern of the hidden weights
+    import itertools
+    refs = [(1, 2, 3, None), (3, 1, 1, [[0, 1, 2]]), (2, 2, 1, [[0, 1]]), (1, 1, 2, None)]
+    if not q:
+        refs += [(1, 1, 3, None), (2, 2, 1, [[0], [1]]), (2, 1, 2, [[0, 1]]), (3, 2, 1, [[0, 2], [1]]), (1, 3, 2, None)]
+    for d, k, h, grp in refs:
+        for sg in itertools.product((1, -1), repeat=d * h):
+            # quick: two concrete hierarchy constants (M < 1 < M'); thorough: M symbolic
+            for Mv in (["1/2", "3"] if q else [None]):
+                out.append({"name": f"hier-ref/d{d}k{k}h{h}/{grp}/signs{''.join('+' if x > 0 else '-' for x in sg)}" + (f"/M{Mv}" if Mv else ""), "target": "checks.c05:job_hier_ref",
+                            "kwargs": dict(d=d, k=k, h=h, groups=grp, signs=sg, M_value=Mv, timeout_q=20.0 if q else 120.0), "timeout": 400 if q else 3000})
     out.append({"name": "hier/M0/d1k1h2", "target": "checks.c05:job_hier", "kwargs": dict(d=1, k=1, h=2, m_zero=True), "timeout": 300})
     for part in ([[[0], [1]]] if q else list(partitions(range(2))) + [p for p in partitions(range(3))]):
         dd = sum(len(g) for g in part)
